@@ -19,6 +19,8 @@ type verifConsul struct {
 	releases       int
 	acquiredWith   []string
 	puts           int
+	deletes        []string
+	releasedWith   []string
 	clusterValue   []byte
 	clusterErr     error
 }
@@ -57,7 +59,12 @@ func (v *verifConsul) install() {
 	})
 	rt.Stub("(*github.com/hashicorp/consul/api.KV).Release", func(k *api.KV, p *api.KVPair, q *api.WriteOptions) (bool, *api.WriteMeta, error) {
 		v.releases++
+		v.releasedWith = append(v.releasedWith, p.Session)
 		return true, nil, nil
+	})
+	rt.Stub("(*github.com/hashicorp/consul/api.KV).Delete", func(k *api.KV, key string, q *api.WriteOptions) (*api.WriteMeta, error) {
+		v.deletes = append(v.deletes, key)
+		return nil, nil
 	})
 	rt.Stub("(*github.com/hashicorp/consul/api.KV).Get", func(k *api.KV, key string, q *api.QueryOptions) (*api.KVPair, *api.QueryMeta, error) {
 		if v.clusterErr != nil {
@@ -114,6 +121,7 @@ func VerifC08ConsulLease() {
 	rt.Check(lease.TTL() == l.TTL && lease.ID() == "session-1", "lease reports its TTL and session")
 	// destroying the lease releases the key and destroys exactly this session
 	rt.Check(lease.Close() == nil && v.releases == 1 && len(v.destroys) == 1 && v.destroys[0] == "session-1", "Close releases the key and destroys the session")
+	rt.Check(len(v.deletes) == 0 && v.releasedWith[0] == "session-1", "the key is given up only under the lease's own session (a release), never deleted outright: a loser's clean-up must not remove the holder's key")
 }
 
 // VerifC08ConsulAcquire: Acquire / AcquireExisting / cluster ID against every reply.
@@ -135,6 +143,10 @@ func VerifC08ConsulAcquire() {
 		case v.acquireOutcome == 1:
 			rt.Check(err == litefs.ErrPrimaryExists && lease == nil, "key held by another session: ErrPrimaryExists, no lease")
 			rt.Check(len(v.destroys) == 1 && v.destroys[0] == "session-1", "the unused session is destroyed")
+			rt.Check(len(v.deletes) == 0, "losing the race for the key never deletes the key the winner holds")
+			for _, sid := range v.releasedWith {
+				rt.Check(sid == "session-1", "a release names the loser's own session")
+			}
 			rt.Reach("c08.consul.held")
 		default:
 			rt.Check(err != nil && err != litefs.ErrPrimaryExists && lease == nil, "error: no lease")
